@@ -30,12 +30,15 @@ class BWorld:
         self.fired = []
         self._ref = None
         self.changed = False
+        self.idx = -1
+        self.obs = []
 
     def viol(self, oracle, msg):
         raise Violation(oracle, msg, event=self.ev)
 
     def run(self, cmds):
-        for cmd in cmds:
+        for i, cmd in enumerate(cmds):
+            self.idx = i
             self.ev += 1
             self.fired = []
             self.changed = False
@@ -46,6 +49,7 @@ class BWorld:
             self.st.rec(self.ev, cmd["op"], out, self.trie.root_hash, len(self.db.raw()), self.fired)
             self.st.sched_rec(cmd["op"], out, self.fired)
             self.st.state(self.trie.root_hash)
+            self.obs.append((i, cmd["op"], out, self.trie.root_hash))
             self.after(cmd, out)
         self.finish()
 
